@@ -4,7 +4,7 @@
    socket accepted, accept schedule k_sched, ghost trace k_trace of every (gather buffer, eof) handed to
    format_output); sent c = bytes on the wire ++ pending_output_; stream f t = the ideal concatenation of
    format_output over a trace; tr c = bytes the device asked the connection to write. *)
-From CppcmsV Require Import Base.Tac Base.CSem C03.Defs C03.Proofs C03.Proofs2 C03.Proofs3 C03.Proofs4 C03.Proofs5 C03.Proofs6 C03.Proofs7 C03.Link gen.Gen_C03.
+From CppcmsV Require Import Base.Tac Base.CSem C03.Defs C03.Proofs C03.Proofs2 C03.Proofs3 C03.Proofs4 C03.Proofs5 C03.Proofs6 C03.Proofs7 C03.Proofs8 C03.Link gen.Gen_C03 gen.Gen_C03_fcgi gen.Gen_C03_sock.
 Local Open Scope N_scope.
 
 (* ------------------------------------------------------------------------------------------------ 1. pending_conservation
@@ -273,6 +273,34 @@ Print Assumptions format_error_stops_the_write.
    blocking-loop liveness: k_err = false is a hypothesis of the blocking and end-to-end theorems (the model raises it
    only for would-block on a blocking socket or a Content-Length overrun) *)
 
+(* asynchronous responses without an application-declared Content-Length: no hypothesis about errors is needed.
+   For EVERY accept schedule (any number of would-blocks and short writes) the response is delivered exactly. *)
+Theorem async_response_never_errs : forall base defbuf version c ops,
+  fresh c -> script_safe true base defbuf version c ops -> no_declared_length c (hdrs_at_out base ops) ->
+  k_err (fst (run_request true base defbuf version c ops)) = false.
+Proof. exact async_noerr. Qed.
+Print Assumptions async_response_never_errs.
+Theorem async_scgi_response_exact_unconditional : forall base defbuf version c ops,
+  fresh c -> f_proto (k_fmt c) = Scgi -> script_safe true base defbuf version c ops ->
+  wire_bytes (fst (run_request true base defbuf version c ops)) = format_cgi_headers (hdrs_at_out base ops) ++ script_body ops.
+Proof. exact async_scgi_unconditional. Qed.
+Print Assumptions async_scgi_response_exact_unconditional.
+Theorem async_fastcgi_response_exact_unconditional : forall base defbuf version c ops rest,
+  fresh c -> f_proto (k_fmt c) = Fcgi -> script_safe true base defbuf version c ops ->
+  exists fuel0, forall fuel, (fuel0 <= fuel)%nat ->
+  unrecord fuel (f_reqid (k_fmt c)) (wire_bytes (fst (run_request true base defbuf version c ops)) ++ rest) =
+  Some (format_cgi_headers (hdrs_at_out base ops) ++ script_body ops, rest).
+Proof. exact async_fcgi_unconditional. Qed.
+Print Assumptions async_fastcgi_response_exact_unconditional.
+Theorem async_http_response_exact_unconditional : forall base defbuf version c ops,
+  fresh c -> f_proto (k_fmt c) = Http -> hmap_get (h_map (hdrs_at_out base ops)) CONTENT_LENGTH = [] ->
+  script_safe true base defbuf version c ops ->
+  http_wire (format_http_headers (hdrs_at_out base ops) version) (f_server (k_fmt c)) (script_body ops)
+            (wire_bytes (fst (run_request true base defbuf version c ops))) /\
+  k_pending (fst (run_request true base defbuf version c ops)) = [].
+Proof. exact async_http_unconditional. Qed.
+Print Assumptions async_http_response_exact_unconditional.
+
 Example response_nonvacuous :
   let c := new_conn Http true true 1 [83;58;120;13;10] [] [3;0;1;0;7;2] [] in
   let ops := [OHeader [88] [49]; OSetbuf false 2; OFull false; OWrite [1;2;3]; OHeader [89] [50]; OAsyncFlush; OFull true;
@@ -291,3 +319,8 @@ Qed.
 Theorem tie_next_size : forall n, n < 2 ^ 63 -> g_next_size (Z.of_N n) = Z.of_N (next_size n).
 Proof. exact link_next_size. Qed.
 Print Assumptions tie_next_size.
+Theorem tie_fastcgi_max_record : g_max_packet_len = Z.of_N max_packet_len.
+Proof. exact link_max_packet_len. Qed.
+Theorem tie_socket_max_iovec : g_max_vec_size = Z.of_nat max_vec.
+Proof. exact link_max_vec_size. Qed.
+Print Assumptions tie_socket_max_iovec.
